@@ -4,6 +4,7 @@ Tokens are space separated; strings are dot-separated hexadecimal code points (`
 -/
 import HtmlVerif.Model.Tree
 import HtmlVerif.Model.Render
+import HtmlVerif.Model.Attrs
 
 namespace HtmlVerif.Wire
 open HtmlVerif
@@ -78,6 +79,24 @@ def attrVal : P AttrVal := do
 def attr : P (Str × AttrVal) := do
   let k ← str
   let v ← attrVal
+  pure (k, v)
+
+/-- an un-normalised attribute value: `an` None, `af` False, `at` True, `as s`, `ah s` (HTML), `am txt` (number), `ab` (bad type) -/
+def attrArg : P AttrArg := do
+  let t ← next
+  match t with
+  | "an" => pure .none
+  | "af" => pure .boolF
+  | "at" => pure .boolT
+  | "as" => .str <$> str
+  | "ah" => .html <$> str
+  | "am" => .num <$> str
+  | "ab" => pure .bad
+  | _ => throw s!"bad attrarg {t}"
+
+def attrPair : P (Str × AttrArg) := do
+  let k ← str
+  let v ← attrArg
   pure (k, v)
 
 def kv : P (Str × Str) := do
